@@ -279,8 +279,8 @@ func shisuiFrames(stack string) string {
 	for _, l := range strings.Split(stack, "\n") {
 		if strings.Contains(l, "github.com/zen-eth/shisui/") && !strings.HasPrefix(l, "\t") {
 			f := strings.TrimPrefix(l, "github.com/zen-eth/shisui/")
-			if i := strings.Index(f, "("); i > 0 && !strings.HasPrefix(f[i:], "(*") {
-				f = f[:i]
+			if i := strings.LastIndex(f, "("); i > 0 {
+				f = f[:i] // drop the argument list: it holds addresses, which differ between processes
 			}
 			out = append(out, f)
 			if len(out) >= 3 {
